@@ -120,10 +120,17 @@ def release_owned_locks():
 
 def reset_scope_manager():
   """Drops every per-thread attribute of the scope manager (whatever they are called) so that it re-initialises."""
+  mgr = cfg._SCOPE_MANAGER
   try:
-    vars(cfg._SCOPE_MANAGER).clear()
+    for k, v in list(vars(mgr).items()):
+      if isinstance(v, list):          # this thread's scope stack, whatever it is called
+        del vars(mgr)[k]
   except TypeError:
     pass
+  try:
+    mgr.current_scope  # pylint: disable=pointless-statement  (forces re-initialisation)
+  except Exception:  # pylint: disable=broad-except
+    vars(mgr).clear()
   cfg._SCOPE_MANAGER.current_scope  # pylint: disable=pointless-statement  (forces re-initialisation)
 
 
